@@ -178,8 +178,11 @@ impl UnimockAttrParams<'_> {
                 let fn_ident = &trait_fn.sig().ident;
 
                 match &trait_fn.deps {
+                    // (with the fn's type and const parameters: nothing says they can be inferred)
                     generics::FnDeps::Generic { .. } => {
-                        punctuator.push(fn_ident);
+                        punctuator.push_fn(|stream| {
+                            push_tokens!(stream, fn_ident, trait_fn.fn_generic_arguments);
+                        });
                     }
                     generics::FnDeps::Concrete(_) => {
                         punctuator.push(Underscore(span));
@@ -187,7 +190,7 @@ impl UnimockAttrParams<'_> {
                     generics::FnDeps::NoDeps { .. } => {
                         // fn_ident(a, b, c)
                         punctuator.push_fn(|stream| {
-                            push_tokens!(stream, fn_ident);
+                            push_tokens!(stream, fn_ident, trait_fn.fn_generic_arguments);
 
                             Paren(span).surround(stream, |stream| {
                                 let mut punctuator = comma_sep(stream, span);
